@@ -39,6 +39,7 @@ def run(chk, tier):
         ci.check_identities(chk, prog, cfg)
         point_ops(chk, prog, cfg)
         effects(chk, prog, cfg)
+    liveness(chk)
     chk.trusted += ["BTreeMap iteration is key-ordered and deterministic", "rustc front end / MIR"]
     chk.assumptions += ["user-supplied type_info() functions are deterministic"]
 
@@ -69,10 +70,10 @@ def point_ops(chk, prog, cfg):
                 chk.expect(not bad, "R11.3", "no-map-iterator:%s" % f["name"], f["loc"], "returns %s" % prog.ty_s(f["output"]), cfg)
 
 
-def effects(chk, prog, cfg):
-    n = 0
+def scan_effects(bodies):
     bad = []
-    for b in prog.bodies():
+    n = 0
+    for b in bodies:
         n += 1
         for bb, t in b.calls():
             nm = (t.get("resolved") or t.get("callee") or "")
@@ -86,6 +87,27 @@ def effects(chk, prog, cfg):
                     bad.append((b, i, "thread-local/static access %s" % rv.get("d")))
                 if rv["k"] == "cast" and ("Expose" in rv["kind"] or rv["kind"] == "Transmute") and not s.get("exp"):
                     bad.append((b, i, "cast %s" % rv["kind"]))
+    return n, bad
+
+
+def liveness(chk):
+    """the effect scanner must fire on the deliberately violating twins of the fixture crate"""
+    import json
+    mirp, _ = facts.ensure_fixture_facts()
+    d = json.load(open(mirp))
+    d["_config"] = "fixtures"
+    fp = mir.Program(d)
+    bodies = [fp.body(p) for p in fp._bodies_raw if "::liveness::effect_" in p]
+    n, bad = scan_effects(bodies)
+    fired = {mir.strip_generics(b.path).split("::")[-1] for b, _, _ in bad}
+    want = {"effect_hashmap", "effect_clock", "effect_transmute"}
+    chk.expect(want <= fired, "R11.4", "liveness:effect-scan", "engines/fixtures/src/lib.rs", "rule liveness: fired on %d/%d violating twins (%s)" % (len(fired & want), len(want), sorted(fired)), None)
+    tbad = [t["s"] for t in fp.types if t["k"] == "adt" and any(t["d"].startswith(x) or x in t["d"] for x in DENY_TYPES)]
+    chk.expect(bool(tbad), "R11.4", "liveness:type-scan", "engines/fixtures/src/lib.rs", "rule liveness: denied types seen in the fixture: %s" % sorted(set(tbad))[:3], None)
+
+
+def effects(chk, prog, cfg):
+    n, bad = scan_effects(prog.bodies())
     chk.count("bodies_scanned[%s]" % cfg, n)
     for b, bb, what in bad:
         chk.fail("R11.4", "effect:%s:%s" % (mir.strip_generics(b.path), what.split(" ")[0] + ":" + what.split(" ")[-1].split("::")[-1]), b.where(bb), what, cfg)
